@@ -13,7 +13,8 @@ RULE = ("enumerates every EnumMap subclass found by walking the pycomm3 package 
         "9 letter-casing classes (name->code by [] and get, membership), every member code (code->name by [] "
         "and get, membership, name carries the code), 40 non-member probes per table for membership consistency, "
         "DataTypes.get_type for every code, Services.from_reply for every service, status text for 0..255, "
-        "every (status, extended status) pair of EXTEND_CODES at every encodable size; distinct = "
+        "every (status, extended status) pair of EXTEND_CODES at every encodable size; every (table, member, code) of the CIP code lists as "
+        "shipped at the pinned commit (vlib/data/code_tables.json) must still resolve both ways; distinct = "
         "(table, member|code, casing-class|probe-kind) triples actually evaluated")
 ASSUMPTIONS = [
     "members of a table are the public non-method attributes of the class body (read from vars(cls), not from the table's own index)",
@@ -46,6 +47,16 @@ def same(a, b):
         return type(a) is type(b) and a == b
     except Exception:
         return False
+
+
+def same_code(M, name, code, short):
+    try:
+        v = M[name]
+    except Exception:  # noqa
+        return False
+    if short == "DataTypes":
+        return getattr(v, "code", None) == code
+    return same(v, code)
 
 
 def run(ctx):
@@ -141,6 +152,46 @@ def run(ctx):
             if ok1 and ok3 != bool(inn):
                 res.violation("membership-getitem", f"{short}: ({p!r} in M) = {inn!r} but M[...] {'ok' if ok3 else 'raises'}",
                               {"table": tname})
+
+    # ---- the CIP code lists as shipped at the pinned commit: every (table, member, code) must still resolve both ways ----------
+    import json
+    import os
+    gold = json.load(open(os.path.join(common.VERIF_DIR, "vlib", "data", "code_tables.json")))["tables"]
+    for tname, mem in sorted(gold.items()):
+        M = tables.get(tname)
+        short = tname.rsplit(".", 1)[1]
+        if M is None:
+            res.ev()
+            res.violation("table-removed", f"code table {tname} no longer exists", None)
+            continue
+        for name, spec in sorted(mem.items()):
+            res.ev()
+            res.seen("gold", short, name)
+            ok, got = attempt("getitem", short, M.__getitem__, name)
+            if "bytes" in spec:
+                want = bytes.fromhex(spec["bytes"])
+                good = ok and got == want
+                rev_key = want
+            elif "int" in spec:
+                want = spec["int"]
+                good = ok and got == want and not isinstance(got, bool)
+                rev_key = want
+            elif "type" in spec:
+                want = (spec["type"], spec["code"])
+                good = ok and isinstance(got, type) and (got.__name__, getattr(got, "code", None)) == want
+                rev_key = spec["code"] if short == "DataTypes" else None
+            else:
+                aid = getattr(got, "attr_id", None) if ok else None
+                want = spec["attr_id"]
+                good = ok and (aid.hex() if isinstance(aid, bytes) else aid) == want
+                rev_key = None
+            if not good:
+                res.violation(f"code-list:{short}", f"{short}[{name!r}] -> {got!r}; the CIP code list has {want!r}", {"table": tname, "member": name})
+                continue
+            if rev_key is not None and M.__dict__.get("_bidirectional_", True):
+                ok2, back = attempt("getitem", short, M.__getitem__, rev_key)
+                if not ok2 or not isinstance(back, str) or not same_code(M, back, rev_key, short):
+                    res.violation(f"code-list-reverse:{short}", f"{short}[{rev_key!r}] -> {back!r}, which does not carry that code", {"table": tname, "member": name})
 
     # ---- data type codes ------------------------------------------------------------------
     from pycomm3.cip import DataTypes, Services
